@@ -25,6 +25,8 @@ import EasyNet.Drv.RecvProto
 import EasyNet.Drv.FlowCtl
 import EasyNet.Drv.Tls08
 import EasyNet.Drv.JRaw
+import EasyNet.Drv.Iso
+import EasyNet.Drv.TlsEof
 open EasyNet.Drv
 
 /-- one runner per model family; each returns `none` for model names it does not know -/
@@ -46,6 +48,8 @@ def runners : List (String → List String → List String → Option (List Stri
   , runCancelScope
   , runTls08
   , runJRaw
+  , runIso
+  , runTlsEof
   ]
 
 def dispatch (model : String) (cfg : List String) (ops : List String) : Option (List String) :=
